@@ -30,7 +30,7 @@ def fit_case(draw, accuracy=None):
     shape = draw(st.sampled_from([None, None, "under", "exact", "over"]))
     sysd = draw(matrix_system(m=(1, 5), n=(1, 8), shape=shape))
     sysd, _prop = draw(proportional_variant(sysd, one_in=6))
-    rows = draw(target_rows(sysd, ["interior", "interior", "facet", "vertex", "near_in", "near_out", "outside", "scaled_out", "below", "below", "random"], nrows=(1, 4)))
+    rows = draw(target_rows(sysd, ["interior", "interior", "facet", "vertex", "near_in", "near_out", "outside", "scaled_out", "below", "below", "random", "dark"], nrows=(1, 4)))
     if draw(st.integers(0, 3)) == 0:
         # a fine intensity ramp: the next target is a few 1e-6 (relative) away - another problem, not a repetition
         f = 1.0 + draw(gens.log_uniform(1e-7, 1e-5))
@@ -98,6 +98,24 @@ def body_fit(case):
     if np.ndim(X) == 2 and np.shape(X)[0] == B.shape[0]:
         pairs = rows_sharing_a_solution(B, X, sv.lb, sv.ub, sv.Ap, scale=sv.extent)
         check(not pairs, "fit:rows-share-a-solution", f"rows {pairs} have different targets but bit-identical intensities")
+    # whole-number problem (photon counts): integer-typed targets, K and baseline give the same fit as the same numbers as floats
+    if sv.K_raw is None or np.ndim(sv.K_raw) < 2:
+        from dreye.api.optimize.lsq_linear import lsq_linear
+
+        Ki = None if sv.K_raw is None else np.maximum(1, np.round(np.asarray(sv.K_raw, dtype=float))).astype(np.int64)
+        bi = np.int64(0) if sv.base_raw is None else np.round(np.asarray(sv.base_raw, dtype=float) / sv.extent * 10.0).astype(np.int64)
+        Bi = np.round(B / sv.extent * 20.0).astype(np.int64)
+        if Ki is not None:
+            Ki = np.atleast_1d(Ki)                   # the function takes K as an array (a scalar as a length-one array, like Sys.K_arg)
+        if np.ndim(bi) == 0:
+            bi = int(bi)
+        flt = lambda v: None if v is None else (float(v) if np.ndim(v) == 0 else np.asarray(v, dtype=float))
+        with calling("lsq_linear (integer-typed targets, K, baseline)"):
+            Xi = np.asarray(lsq_linear(sv.A, Bi, lb=sv.lb_arg(), ub=sv.ub_arg(), K=Ki, baseline=bi, **opt))
+            Xf = np.asarray(lsq_linear(sv.A, Bi.astype(float), lb=sv.lb_arg(), ub=sv.ub_arg(), K=flt(Ki), baseline=flt(bi), **opt))
+        rng_i = np.where(np.isfinite(sv.ub), sv.ub - sv.lb, NOMINAL_RANGE)
+        check(Xi.shape == Xf.shape and np.all(np.abs(Xi - Xf) <= 1e-6 * float(np.max(rng_i))), "fit:integer-typed-problem-differs",
+              f"targets {Bi.tolist()}, K {Ki}, baseline {bi} as integers give intensities {Xi.tolist()}, as floats {Xf.tolist()}")
     labs = sv.labels() + [f"entry:{entry}", f"acc:{acc}", "W:" + ("none" if W is None else ("inverse" if isinstance(Wcall, str) else ("vector" if np.ndim(W) == 1 else "matrix")))] + (["proportional-sources"] if case.get("proportional") else [])
     check(np.array_equal(B, B0), "fit:targets-modified", "fit modified the caller's target array")
     # (a) shapes
@@ -118,11 +136,16 @@ def body_fit(case):
     check(np.all(np.abs(Bp - model) <= 1e-9 * mag + 1e-300), "fit:prediction", f"B_pred {Bp.tolist()} != K(Ax+baseline) {model.tolist()}")
     # (c) optimality per row, (e) zero error iff in gamut
     Wm = np.ones_like(B) if W is None else np.broadcast_to(np.asarray(W, dtype=float), B.shape)
+    # with batch_size > 1 several targets are stacked into one problem and the solver's accuracy (relative gap 1e-6 by default, 1e-9
+    # at high accuracy) refers to the objective of the whole stack: a far out-of-gamut row (residual ~50) leaves a gap of 1e-6 * 2500,
+    # i.e. an error of sqrt(gap) on an in-gamut row of the same batch (same rationale as in C05)
+    stacked = case.get("batch_size") not in (None, 1)
+    batch_slack = float(np.sqrt((1e-9 if acc == "high" else 1e-6) * (1.0 + float(np.sum((Wm * (Bp - B)) ** 2))))) if stacked else 0.0
     for i, (r, b) in enumerate(zip(case["rows"], B)):
         w = Wm[i]
         err = float(np.linalg.norm(w * (Bp[i] - b)))
         xo, eo = bvls(sv.Ap, sv.basep, sv.lb, sv.ub, b, w)
-        capt = tol["cap"] * max(1.0, float(np.max(w)))
+        capt = tol["cap"] * max(1.0, float(np.max(w))) + batch_slack
         if np.any(np.isclose(xo, sv.lb, atol=1e-9)) or np.any(np.isclose(xo, sv.ub, atol=1e-9)):
             labs.append("nt:bound-active-at-optimum")
         if r["kind"] == "below" or np.any(b < sv.basep):
